@@ -224,7 +224,8 @@ class HarnessGen:
             for i in range(self.K):
                 inm = self.new_input(et, '%s[%d]' % (nm, i))
                 L.append('  QX_INPUT(%s, %s); if (%d < (%s)) ((%s *)%s)[%d] = %s;' % (et.cast(), inm, i, cnt, et.cast(), nm, i, inm))
-        for (lv, cnt, ety) in spec.get('obj_buffers', []):
+        for ob in spec.get('obj_buffers', []):
+            (lv, cnt, ety) = ob[:3]
             et = self.lw.ctype(ety)
             L.append('  __CPROVER_assume((%s) <= %d);' % (cnt, self.K))
             L.append('  %s = malloc(((__CPROVER_size_t)(%s)) * sizeof(%s));' % (lv, cnt, et.cast()))
@@ -247,11 +248,11 @@ class HarnessGen:
             L.append('  __typeof__(%s) %s = %s;' % (e, nm, e))
         ret = info['ret']
         isvoid = ret.base == 'void' and not ret.derivs
-        ghostret = bool(spec.get('ghost_returns'))
+        ghostret = bool(spec.get('ghost_returns')) or getattr(self, 'always_both', False)
         objs = [(nm, t) for nm, t, isref in info['params'] if not (nm in bufs) and nm not in alias and (isref or nm in refs or (t.is_ptr() and t.deref().is_record()))]
         # ---- native only: run the REAL function on clones first when the postcondition needs ghost code
         L.append('#ifdef QX_NATIVE')
-        L.append('  printf("QX-START\\n"); fflush(stdout);')
+        L.append('  QX_STARTED();')
         rargs = []
         for nm, t, isref in info['params']:
             if nm in bufs:
@@ -264,6 +265,12 @@ class HarnessGen:
                 rargs.append('&ro_' + alias[nm] if any(o[0] == alias[nm] for o in objs) else alias[nm])
             elif (nm, t) in objs:
                 L.append('  %s = o_%s;' % (t.deref().decl('ro_' + nm, keep_const=False), nm))
+                for ob in spec.get('obj_buffers', []):
+                    (lv, cnt, ety) = ob[:3]
+                    if lv.startswith('o_%s.' % nm):
+                        rlv = 'r' + lv
+                        L.append('  %s = malloc(((size_t)(%s)) * sizeof(%s) + 1); if ((%s) != 0) memcpy((void *)%s, %s, ((size_t)(%s)) * sizeof(%s));' % (
+                            rlv, cnt, ety, cnt, rlv, lv, cnt, ety))
                 rargs.append('&ro_' + nm)
             else:
                 rargs.append(nm)
@@ -287,13 +294,24 @@ class HarnessGen:
             else:
                 L.append('  %s = %s;' % (ret.decl('qx_ret', keep_const=False), call_low))
             L.append('#ifdef QX_NATIVE')
-            if not isvoid and not ret.is_record():
-                L.append('  if (qx_ret != qx_real_ret) { printf("QX-LOWERING-MISMATCH return value\\n"); }')
+            if not isvoid and not ret.is_record() and not ret.derivs:
+                L.append('  if (qx_ret != qx_real_ret) { QX_MISMATCH("return value"); }')
             for nm, t in objs:
-                L.append('  if (memcmp(&o_%s, &ro_%s, sizeof(o_%s)) != 0) { printf("QX-LOWERING-MISMATCH object %s\\n"); }' % (nm, nm, nm, nm))
+                acc = []
+                leaves(self.lw, 'o_' + nm, t.deref(), acc)
+                for pth, lt in acc:
+                    L.append('  if (%s != r%s) { QX_MISMATCH("object field %s"); }' % (pth, pth, pth))
+                for ob in spec.get('obj_buffers', []):
+                    (lv, cnt, ety) = ob[:3]
+                    if len(ob) > 3:
+                        cnt = ob[3]     # number of elements that carry meaning after the call (e.g. the logical length, not the capacity)
+                    if lv.startswith('o_%s.' % nm):
+                        rcnt = re.sub(r'\bo_%s\.' % nm, 'ro_%s.' % nm, cnt)
+                        L.append('  if (%s != 0 && r%s != 0 && (%s) == (%s) && memcmp(%s, r%s, ((size_t)(%s)) * sizeof(%s)) != 0) { QX_MISMATCH("contents of %s"); }' % (
+                            lv, lv, cnt, rcnt, lv, lv, cnt, ety, lv))
             for nm, cnt in bufs.items():
                 esz = ('sizeof(%s)' % self.lw.ctype(buf_et[nm]).cast()) if nm in buf_et else 'sizeof(*%s)' % nm
-                L.append('  if ((%s) != 0 && memcmp(%s, r_%s, ((size_t)(%s)) * %s) != 0) { printf("QX-LOWERING-MISMATCH buffer %s\\n"); }' % (cnt, nm, nm, cnt, esz, nm))
+                L.append('  if ((%s) != 0 && memcmp(%s, r_%s, ((size_t)(%s)) * %s) != 0) { QX_MISMATCH("buffer %s"); }' % (cnt, nm, nm, cnt, esz, nm))
             L.append('#endif')
         else:
             L.append('#ifdef QX_NATIVE')
@@ -317,6 +335,32 @@ class HarnessGen:
         return (decl + self.pre_decl + 'void qx_harness(void)\n{\n' + '\n'.join(L) + '\n}\n')
 
 
+VALIDATE_PRE = r'''
+#include <stdio.h>
+#include <stdlib.h>
+#include <string.h>
+#include <stdint.h>
+static int qx_failed = 0;
+static unsigned long long qx_state = 88172645463325252ULL;
+static unsigned long long qx_rand(void) { qx_state ^= qx_state << 13; qx_state ^= qx_state >> 7; qx_state ^= qx_state << 17; return qx_state; }
+/* small values, boundary values and wild values in a mix */
+static unsigned long long qx_pick(void) { unsigned long long r = qx_rand(); switch (r & 7) { case 0: case 1: case 2: return (r >> 8) & 7; case 3: return (r >> 8) & 0xff; case 4: return ~0ULL - ((r >> 8) & 3); case 5: return 1ULL << ((r >> 8) & 63); default: return qx_rand(); } }
+#define __CPROVER_assume(c) do { if (!(c)) { qx_skipped++; return; } } while (0)
+#define __CPROVER_assert(c, m) do { (void)(c); } while (0)
+#define __CPROVER_size_t size_t
+#define __CPROVER_w_ok(p, n) 1
+#define __CPROVER_r_ok(p, n) 1
+#define __CPROVER_same_object(a, b) 1
+#define QX_INPUT(T, n) n = (T)qx_pick()
+#define QX_FIXED(T, n, v) n = (T)(v)
+#define QX_CANARY()
+#define QX_STARTED()
+static unsigned long qx_mism = 0;
+#define QX_MISMATCH(w) do { if (qx_mism < 3) printf("QX-LOWERING-MISMATCH %s\n", w); qx_mism++; } while (0)
+#define QX_DONE() do { qx_done++; } while (0)
+static unsigned long qx_skipped = 0, qx_done = 0;
+'''
+
 NATIVE_PRE = r'''
 #include <stdio.h>
 #include <stdlib.h>
@@ -331,6 +375,8 @@ static int qx_failed = 0;
 #define QX_INPUT(T, n) n = (T)QX_VAL_##n
 #define QX_FIXED(T, n, v) n = (T)QX_VAL_##n
 #define QX_CANARY()
+#define QX_STARTED() do { printf("QX-START\n"); fflush(stdout); } while (0)
+#define QX_MISMATCH(w) printf("QX-LOWERING-MISMATCH %s\n", w)
 #define QX_DONE() do { printf(qx_failed ? "QX-RESULT fail\n" : "QX-RESULT pass\n"); } while (0)
 '''
 
@@ -386,7 +432,10 @@ def cxx_call(info, args):
     start = 1 if info['is_method'] else 0
     cpp_ps = [p for p in node.get('inner', []) if p.get('kind') == 'ParmVarDecl']
     for i, ((nm, t, isref), a) in enumerate(list(zip(ps, args))[start:]):
-        if isref:
+        if isref and t.derivs and t.derivs[-1][0] == 'rref' and i < len(cpp_ps):
+            ct = cpp_ps[i]['type'].get('desugaredQualType') or cpp_ps[i]['type']['qualType']
+            cargs.append('static_cast<%s>(*%s)' % (ct, a))
+        elif isref:
             cargs.append('*' + a)
         elif not t.derivs and not t.is_record() and i < len(cpp_ps):
             ct = cpp_ps[i]['type'].get('desugaredQualType') or cpp_ps[i]['type']['qualType']
@@ -400,11 +449,16 @@ def cxx_call(info, args):
         if kind == 'CXXDestructorDecl':
             return '%s->~%s()' % (args[0], node.get('name').lstrip('~'))
         ta = q.rsplit('::', 1)[1][len(leaf):] if q.rsplit('::', 1)[1].startswith(leaf) else ''
+        if kind == 'CXXConversionDecl':
+            return '%s->%s()' % (args[0], leaf)
         if leaf.startswith('operator') and ta:
             return '%s->template %s%s(%s)' % (args[0], leaf, ta, ', '.join(cargs))
         if ta:
             return '%s->template %s%s(%s)' % (args[0], leaf, ta, ', '.join(cargs))
         return '%s->%s(%s)' % (args[0], leaf, ', '.join(cargs))
+    leaf = node.get('name', '')
+    if leaf.startswith('operator') and kind == 'FunctionDecl':
+        return '%s(%s)' % (leaf, ', '.join(cargs))     # in-class friend: found by argument-dependent lookup only
     return '%s(%s)' % (q, ', '.join(cargs))
 
 
